@@ -1,6 +1,7 @@
 package main
 
 import (
+	"os"
 	_ "embed"
 	"encoding/json"
 	"fmt"
@@ -646,10 +647,67 @@ func (r *Run) AllGuardTable(keep func(tableRow) bool, why string) int {
 	return n
 }
 
+// loggingOnlyFork: the blocks reachable only through one edge of the branch (before the paths
+// rejoin) do nothing but log — calls to loggers/fmt printing and the stores that fill their argument
+// arrays. Such a fork does not change what is accepted or done.
+func loggingOnlyFork(g *Guard) bool {
+	b := g.Block
+	for i := 0; i < 2; i++ {
+		start := b.Succs[i]
+		// region: blocks dominated by the edge (b → start)
+		for _, x := range g.Fn.Blocks {
+			if x == g.Fn.Recover || (len(x.Preds) == 0 && x != g.Fn.Blocks[0]) || !edgeDominates(b, start, x) {
+				continue
+			}
+			for _, in := range x.Instrs {
+				switch y := in.(type) {
+				case *ssa.Call:
+					if bi, ok := y.Call.Value.(*ssa.Builtin); ok && (bi.Name() == "len" || bi.Name() == "cap") {
+						continue
+					}
+					callee := ""
+					if y.Call.IsInvoke() {
+						callee = shortType(y.Call.Value.Type()) + "." + y.Call.Method.Name()
+					} else if f := y.Call.StaticCallee(); f != nil {
+						callee = f.String()
+					}
+					if strings.Contains(callee, "Logger.") || strings.Contains(callee, "log15") || strings.HasPrefix(callee, "fmt.Print") || strings.HasPrefix(callee, "fmt.Sprint") || strings.Contains(callee, "runtime/debug.Stack") {
+						continue
+					}
+					if os.Getenv("ZDBG") != "" {
+						fmt.Fprintln(os.Stderr, "DBG call", callee, y)
+					}
+					return false
+				case *ssa.Store:
+					if isLocalAddr(y.Addr) {
+						continue
+					}
+					if ia, ok := y.Addr.(*ssa.IndexAddr); ok && isLocalAddr(ia.X) {
+						continue
+					}
+					if os.Getenv("ZDBG") != "" {
+						fmt.Fprintln(os.Stderr, "DBG store", g.Fn.Name(), g.Cond, in)
+					}
+					return false
+				case *ssa.Return, *ssa.Panic, *ssa.Go, *ssa.Defer, *ssa.Send, *ssa.MapUpdate, *ssa.RunDefers:
+					if os.Getenv("ZDBG") != "" {
+						fmt.Fprintln(os.Stderr, "DBG other", g.Fn.Name(), g.Cond, in)
+					}
+					return false
+				}
+			}
+		}
+	}
+	return true
+}
+
 func plainBranches(r *Run, fn *ssa.Function) []string {
 	set := map[string]bool{}
 	for _, g := range r.P.Info(fn).guards {
 		if g.Reject != "" || g.Block.Succs[0] == g.Block.Succs[1] {
+			continue
+		}
+		if loggingOnlyFork(g) {
 			continue
 		}
 		s, n := g.Cond.String(), g.Cond.Negate().String()
